@@ -3,7 +3,7 @@
    over an ABSTRACT INSTRUMENT (the quantum step is a Section variable; the branch bookkeeping is modelled
    line by line).  No proofs here (Proofs/SimP.v). *)
 From Coq Require Import QArith Qabs.
-From CKT Require Import Common.Base.
+From CKT Require Import Common.Base Common.QSim.
 Close Scope Q_scope.
 
 Section Sim.
@@ -223,3 +223,14 @@ Definition total (l : list (N * Q)) : Q := fold_right (fun kp acc => (snd kp + a
 (* expectation of a function of the outcome *)
 Definition ev (phi : N -> Q) (l : list (N * Q)) : Q :=
   fold_right (fun kp acc => (phi (fst kp) * snd kp + acc)%Q) 0%Q l.
+
+(* ---------------- the QSim instance (Common/QSim.v): exact Q(sqrt 2)(i) state vectors ---------------- *)
+Definition qprog := prog qgate.
+Definition qsimulate (tol : Q) (nq : nat) (p : qprog) : res (list (N * Q)) :=
+  simulate qapply qp1 qproj qflipx tol (init_vec nq) p.
+Definition qsampler (tol : Q) (nq ncl : nat) (p : qprog) : res (list (N * Q)) :=
+  sampler qapply qp1 qproj qflipx tol ncl (init_vec nq) p.
+Definition qpruned (tol : Q) (nq : nat) (p : qprog) : res nat :=
+  pruned_total qapply qp1 qproj qflipx tol (init_vec nq) p.
+Definition qpath (nq : nat) (p : qprog) : list (N * Q) :=
+  path_law qapply qp1 qproj qflipx p (init_vec nq) 0%N.
